@@ -24,6 +24,14 @@ type StructV struct {
 
 type TupleV []Val
 
+// ElemPtr is a pointer to a struct element of a slice (&s[i]): the element lives in the per-field element heaps.
+type ElemPtr struct {
+	Elem types.Type // struct type of the element
+	Key  string     // element heap key prefix (E:<type>)
+	Base Term
+	Idx  Term // absolute cell index
+}
+
 type FuncV struct {
 	Lit  *ast.FuncLit
 	Fn   *FuncInfo
